@@ -9,7 +9,7 @@ EXPLANATION = ("All paths of the TCP connection constructor are enumerated (path
                "Ok paths without TLS are those for `ldap` without StartTLS; W2 on StartTLS paths exactly one LDAP operation is issued "
                "before the handshake - extended(StartTLS) - the driver turn's result and `success()?` of the response are both required "
                "(Ok) before into_parts / the handshake, `ldaps` paths issue no LDAP operation before the handshake, and the handle is not "
-               "cloned; W3 the transport the connection ends up with is read as what it is built from, whichever constructor spells it (Framed::new, Decoder::framed, FramedParts::new + Framed::from_parts, each modelled after tokio_util): it runs over the stream the handshake returned, the handshake ran on the socket taken out of the cleartext transport, the codec is the cleartext transport's, and its read and write buffers start empty - a buffer of the cleartext transport carried over (assigned into the new parts, or the old parts reused) would have cleartext bytes decoded inside the protected session; of the old transport's parts only io and codec flow anywhere; a transport is rebuilt from parts nowhere else; W4 the request to skip certificate verification is the public call set_no_tls_verify(true). How the settings struct keeps its requests is not read: the reachable states of the struct are enumerated by evaluating the constructors and every builder method on literals (exhaustively; bit operations exact), and each setting is read where it takes effect - StartTLS through the public getter, the verification setting in the default connector / configuration of the handshake helper. In every reachable state: set_no_tls_verify(v) makes the setting read v; every body that builds a settings value (new, the Default impl - derived or hand-written -, Clone) yields 'not requested'; the default connector / configuration disables verification exactly when the last set_no_tls_verify on the way there said true, is built from the connection's own settings, a caller-supplied connector is used as given, and the handshake is given the URL's host name; W5/W7/W8 the settings' Clone keeps, and the starttls() getter returns, what the setters recorded, in every reachable state (a setting that is a bool field of its own and one that is a bit of a flags byte are the same to these rules). Not decided: what native-tls / rustls verify (trusted); server behaviours as runtime events.")
+               "cloned; W2.nothing-else-in-clear on EVERY path on which TLS is called for - those that end in Err or in a panic included (StartTLS refused, exchange or handshake failed) - while the transport is still the cleartext socket (everything before the call of the handshake helper) the values through which bytes reach the socket are anchored by type (handle, connection, framed transport and its parts, transport enum, TCP stream) and every call handed one of them, on the path or in a future it spawns (tokio::spawn of an async block is followed: its body runs from the state at the spawn), is one of: one extended(StartTLS) on the handle, a handle method from which the operation issue point is not reachable in the MIR call graph, one run of the driver loop in a mode of its own (not the mode of the public drive(); called as such or through a function that does exactly that), into_parts of the transport, the constructor of the connection pair, drop - so an unbind / bind / abandon on the refusal path, the full driver spawned on the cleartext connection, or a write to the socket is reported, and `drop(ldap); drop(conn); return Err(e)` is what `?` does anyway; W3 the transport the connection ends up with is read as what it is built from, whichever constructor spells it (Framed::new, Decoder::framed, FramedParts::new + Framed::from_parts, each modelled after tokio_util): it runs over the stream the handshake returned, the handshake ran on the socket taken out of the cleartext transport, the codec is the cleartext transport's, and its read and write buffers start empty - a buffer of the cleartext transport carried over (assigned into the new parts, or the old parts reused) would have cleartext bytes decoded inside the protected session; of the old transport's parts only io and codec flow anywhere; a transport is rebuilt from parts nowhere else; W4 the request to skip certificate verification is the public call set_no_tls_verify(true). How the settings struct keeps its requests is not read: the reachable states of the struct are enumerated by evaluating the constructors and every builder method on literals (exhaustively; bit operations exact), and each setting is read where it takes effect - StartTLS through the public getter, the verification setting in the default connector / configuration of the handshake helper. In every reachable state: set_no_tls_verify(v) makes the setting read v; every body that builds a settings value (new, the Default impl - derived or hand-written -, Clone) yields 'not requested'; the default connector / configuration disables verification exactly when the last set_no_tls_verify on the way there said true, is built from the connection's own settings, a caller-supplied connector is used as given, and the handshake is given the URL's host name; W5/W7/W8 the settings' Clone keeps, and the starttls() getter returns, what the setters recorded, in every reachable state (a setting that is a bool field of its own and one that is a bit of a flags byte are the same to these rules). Not decided: what native-tls / rustls verify (trusted); server behaviours as runtime events.")
 TRUSTED = ['native-tls / rustls certificate and host name verification', 'tokio_util Framed::into_parts / Framed::new / Framed::from_parts / FramedParts::new / Decoder::framed behave as modelled in transport_of (read from tokio-util 0.7 source)']
 UNDECIDED = ['TLS library behaviour', 'server behaviour at run time']
 ASSUMPTIONS = []
